@@ -98,14 +98,35 @@ Definition match_genomic_features (delta:Z) (known reads:list iv) : list iv :=
 (* ---------------------------------------------------------------- fuzzy junctions *)
 Notation errs := ((Z*Z) * (Z*Z))%type.     (* ((indels, mismatches) at the left site, (indels, mismatches) at the right site) *)
 Definition keep_read_site (c:Z*Z) : bool := (fst c =? 0) && (snd c <=? 1).
-Fixpoint fuzzy (reads pots:list iv) (orc:list errs) : list iv :=
+(* the code before fixes/C01_fuzzy_junction_keeps_exons.diff: each site independently *)
+Fixpoint fuzzy_unrepaired (reads pots:list iv) (orc:list errs) : list iv :=
   match reads, pots with
   | r :: rs, k :: ks =>
       let o := hd ((0,0),(0,0)) orc in
       ((if fst r =? fst k then fst r else if keep_read_site (fst o) then fst r else fst k),
-       (if snd r =? snd k then snd r else if keep_read_site (snd o) then snd r else snd k)) :: fuzzy rs ks (tl orc)
+       (if snd r =? snd k then snd r else if keep_read_site (snd o) then snd r else snd k)) :: fuzzy_unrepaired rs ks (tl orc)
   | _, _ => []
   end.
+(* repaired: a reference site is used only if the intron stays non-empty and the neighbouring exons stay non-empty - it must start
+   after the previous corrected intron (or the read start) and end before the next read intron (or the read end) *)
+Fixpoint fuzzy (region:iv) (prev_end:option Z) (reads pots:list iv) (orc:list errs) : list iv :=
+  match reads, pots with
+  | r :: rs, k :: ks =>
+      let o := hd ((0,0),(0,0)) orc in
+      let l0 := if fst r =? fst k then fst r else if keep_read_site (fst o) then fst r else fst k in
+      let r0 := if snd r =? snd k then snd r else if keep_read_site (snd o) then snd r else snd k in
+      let lower := match prev_end with Some e => e + 1 | None => fst region end in
+      let upper := match rs with r' :: _ => fst r' - 1 | [] => snd region end in
+      let l1 := if l0 <=? lower then fst r else l0 in
+      let r1 := if upper <=? r0 then snd r else r0 in
+      let c := if r1 <? l1 then r else (l1, r1) in
+      c :: fuzzy region (Some (snd c)) rs ks (tl orc)
+  | _, _ => []
+  end.
+(* which of the two repairs of ExonCorrector.process_events the tree under test carries *)
+Record variant := mkVar { v_fuzzy : bool; v_fake : bool }.
+Definition repaired : variant := mkVar true true.
+Definition unrepaired : variant := mkVar false false.
 (* the get_error_count calls the code makes: (start, end, intron index, left_site) *)
 Fixpoint oracle_calls (i:Z) (reads pots:list iv) : list (Z*Z*Z*bool) :=
   match reads, pots with
@@ -116,7 +137,8 @@ Fixpoint oracle_calls (i:Z) (reads pots:list iv) : list (Z*Z*Z*bool) :=
   end.
 
 (* ---------------------------------------------------------------- process_events *)
-Inductive regupd := NoUpd | SetStart (z:Z) | SetEnd (z:Z).
+(* DropStart: the start moves and everything appended so far is discarded (repaired fake_terminal_exon_left) *)
+Inductive regupd := NoUpd | SetStart (z:Z) | SetEnd (z:Z) | DropStart (z:Z).
 (* one iteration of the while loop: position, next position, the fake-IR intron inserted first, the introns appended, the region update *)
 Record block := mkblock { b_i : Z; b_next : Z; b_fake : list iv; b_emit : list iv; b_upd : regupd }.
 Definition b_all (b:block) := b_fake b ++ b_emit b.
@@ -128,6 +150,7 @@ Definition known_structure_types : list MES :=
 Definition mes_mem (t:MES) (l:list MES) := existsb (MES_eqb t) l.
 
 Section PE.
+Variable vr : variant.
 Variable fl : flags.
 Variable delta : Z.
 Variable read_region : iv.
@@ -142,7 +165,7 @@ Definition in_misalignment_set (e:event) : bool :=
 
 Definition opt_block {A} (o:option A) (f:A -> block) : outcome block := match o with Some x => Ok (f x) | None => Raises 1 end.
 
-Definition step (i:Z) : outcome block :=
+Definition step_v (i:Z) : outcome block :=
   match (match lookup emap (- i - 1) with
          | Some e => match py_nth II (fst (e_iso e)) with Some x => Ok [x] | None => Raises 1 end
          | None => Ok [] end) with
@@ -153,7 +176,8 @@ Definition step (i:Z) : outcome block :=
     | Some e =>
       let a := fst (e_read e) in let b := snd (e_read e) in
       if is_type e MES_fake_terminal_exon_left && f_fake_terminal fl then
-        if negb (a =? b) then Raises 2 else opt_block (py_nth RI a) (fun x => mkblock i (b + 1) fk [] (SetStart (snd x + 1)))
+        if negb (a =? b) then Raises 2
+        else opt_block (py_nth RI a) (fun x => if v_fake vr then mkblock i (b + 1) [] [] (DropStart (snd x + 1)) else mkblock i (b + 1) fk [] (SetStart (snd x + 1)))
       else if is_type e MES_fake_terminal_exon_right && f_fake_terminal fl then
         if negb (a =? b) then Raises 2 else opt_block (py_nth RI a) (fun x => mkblock i (b + 1) fk [] (SetEnd (fst x - 1)))
       else if is_type e MES_terminal_exon_misalignment_left && f_terminal fl then
@@ -180,23 +204,27 @@ Definition step (i:Z) : outcome block :=
 
 Definition n_introns : Z := Z.of_nat (length CI).
 
-Fixpoint loop (fuel:nat) (i:Z) : outcome (list block) :=
+Fixpoint loop_v (fuel:nat) (i:Z) : outcome (list block) :=
   if i <? n_introns then
     match fuel with
     | O => Raises 3
-    | Datatypes.S f => match step i with
+    | Datatypes.S f => match step_v i with
                        | Raises k => Raises k
-                       | Ok b => match loop f (b_next b) with Ok bs => Ok (b :: bs) | Raises k => Raises k end
+                       | Ok b => match loop_v f (b_next b) with Ok bs => Ok (b :: bs) | Raises k => Raises k end
                        end
     end
   else Ok [].
 
-Definition apply_upd (reg:iv) (u:regupd) : iv := match u with NoUpd => reg | SetStart z => (z, snd reg) | SetEnd z => (fst reg, z) end.
+Definition apply_upd (reg:iv) (u:regupd) : iv := match u with NoUpd => reg | SetStart z => (z, snd reg) | SetEnd z => (fst reg, z) | DropStart z => (z, snd reg) end.
 Definition final_region (bs:list block) : iv := fold_left (fun r b => apply_upd r (b_upd b)) bs read_region.
-Definition emitted (bs:list block) : list iv := flat_map b_all bs.
+Definition emitted (bs:list block) : list iv :=
+  fold_left (fun acc b => match b_upd b with DropStart _ => [] | _ => acc ++ b_all b end) bs [].
 (* every terminating run visits pairwise different positions in [-n, n) *)
-Definition blocks : outcome (list block) := loop (2 * length CI + 2) 0.
+Definition blocks_v : outcome (list block) := loop_v (2 * length CI + 2) 0.
 End PE.
+Notation step := (step_v repaired).
+Notation loop := (loop_v repaired).
+Notation blocks := (blocks_v repaired).
 
 (* ---------------------------------------------------------------- correct_assigned_read *)
 Record cin := mkcin {
@@ -213,14 +241,19 @@ Record cin := mkcin {
 Definition c_region (c:cin) : iv := hull (c_exons c).
 Definition c_introns (c:cin) : list iv := jfb (c_exons c).
 Definition potentials (c:cin) : list iv := match_genomic_features (c_delta c) (c_known c) (c_introns c).
-Definition corrected_introns (fl:flags) (c:cin) : list iv :=
-  if f_fuzzy fl then fuzzy (c_introns c) (potentials c) (c_oracle c) else c_introns c.
+Definition corrected_introns_v (vr:variant) (fl:flags) (c:cin) : list iv :=
+  if f_fuzzy fl then (if v_fuzzy vr then fuzzy (c_region c) None (c_introns c) (potentials c) (c_oracle c)
+                      else fuzzy_unrepaired (c_introns c) (potentials c) (c_oracle c))
+  else c_introns c.
 Definition error_count_calls (fl:flags) (c:cin) : list (Z*Z*Z*bool) :=
   if f_fuzzy fl then oracle_calls 0 (c_introns c) (potentials c) else [].
-Definition c_blocks (fl:flags) (c:cin) : outcome (list block) :=
-  blocks fl (c_delta c) (c_region c) (c_introns c) (corrected_introns fl c) (c_isoreg c) (c_isointrons c) (build_map fl (c_events c)).
-Definition process_events (fl:flags) (c:cin) : outcome (iv * list iv) :=
-  match c_blocks fl c with Ok bs => Ok (final_region (c_region c) bs, emitted bs) | Raises k => Raises k end.
+Definition c_blocks_v (vr:variant) (fl:flags) (c:cin) : outcome (list block) :=
+  blocks_v vr fl (c_delta c) (c_region c) (c_introns c) (corrected_introns_v vr fl c) (c_isoreg c) (c_isointrons c) (build_map fl (c_events c)).
+Definition process_events_v (vr:variant) (fl:flags) (c:cin) : outcome (iv * list iv) :=
+  match c_blocks_v vr fl c with Ok bs => Ok (final_region (c_region c) bs, emitted bs) | Raises k => Raises k end.
+Notation corrected_introns := (corrected_introns_v repaired).
+Notation c_blocks := (c_blocks_v repaired).
+Notation process_events := (process_events_v repaired).
 
 Definition build_exons (reg:iv) (new:list iv) : list iv :=
   match new with
@@ -228,9 +261,11 @@ Definition build_exons (reg:iv) (new:list iv) : list iv :=
   | f :: _ => (fst reg, fst f - 1) :: jfb new ++ [(snd (last new f) + 1, snd reg)]
   end.
 Definition early_return (c:cin) : bool := (length (c_exons c) =? 1)%nat || c_noninf c || negb (c_has_match c).
-Definition correct_assigned_read (fl:flags) (c:cin) : outcome (list iv) :=
+Definition correct_assigned_read_v (vr:variant) (fl:flags) (c:cin) : outcome (list iv) :=
   if early_return c then Ok (c_exons c)
-  else match process_events fl c with Ok (reg, new) => Ok (build_exons reg new) | Raises k => Raises k end.
+  else match process_events_v vr fl c with Ok (reg, new) => Ok (build_exons reg new) | Raises k => Raises k end.
+Notation correct_assigned_read := (correct_assigned_read_v repaired).
+Notation correct_assigned_read_unrepaired := (correct_assigned_read_v unrepaired).
 
 (* decidable well-formedness predicates *)
 Fixpoint mono_b (l:list iv) : bool :=
@@ -301,15 +336,16 @@ Definition inside (reg:iv) (x:iv) : bool := (fst reg <? fst x) && (snd x <? snd 
 (* the hypothesis of corrected_exons_wf, a decidable predicate on the corrector's input: the read's exons are well-formed with
    a gap between consecutive ones; no branch raises; every event region visited makes progress and stays in range; the
    introns the branches select are well-formed, start-ordered and strictly inside the corrected read region *)
-Definition events_wf (fl:flags) (c:cin) : bool :=
+Definition events_wf_v (vr:variant) (fl:flags) (c:cin) : bool :=
   sdg_b (c_exons c) && negb (length (c_exons c) =? 0)%nat &&
   (early_return c ||
-   match c_blocks fl c with
+   match c_blocks_v vr fl c with
    | Ok bs => let reg := final_region (c_region c) bs in
               forallb (block_ok (Z.of_nat (length (c_introns c)))) bs &&
               mono_b (emitted bs) && (fst reg <=? snd reg) && forallb (inside reg) (emitted bs)
    | Raises _ => false
    end).
+Notation events_wf := (events_wf_v repaired).
 
 (* event regions as the comparator emits them: non-negative positions, first <= last (the first may be the `absent` marker) *)
 Definition regions_ordered (evs:list event) : bool :=
